@@ -211,7 +211,12 @@ def close(a, b, rtol=1e-9, atol=0.0):
 def bits_equal(a, b):
     a = np.ascontiguousarray(np.asarray(a, dtype=np.float64))
     b = np.ascontiguousarray(np.asarray(b, dtype=np.float64))
-    return a.shape == b.shape and bool(np.array_equal(a.view(np.uint64), b.view(np.uint64)))
+    if a.shape != b.shape:
+        return False
+    na, nb = np.isnan(a), np.isnan(b)                      # a NaN is a NaN (sign and payload bits carry no meaning)
+    if not np.array_equal(na, nb):
+        return False
+    return bool(np.array_equal(a.view(np.uint64)[~na], b.view(np.uint64)[~nb]))
 
 
 def fmt(x):
